@@ -185,6 +185,15 @@ def _is_read(fn, nid, text):
     return n is not None and _is_text(fn, n, text)
 
 
+def _text_vars(fn, nid, text):
+    """decl ids of the variables that make up the read `text` inside expression nid (the cursor pointer itself)"""
+    out = set()
+    for x in fn.subtree(nid):
+        if _is_text(fn, fn.nodes[x], text):
+            out |= vars_in(fn, x)
+    return out
+
+
 def char_aliases(fn, text):
     """{decl id: [defining element ids]} of 8-bit locals that are (somewhere) defined as a copy of the read `text`
     (`const char c = *s;`), and {element id: (decl id, is_copy)} for every definition of such a local."""
@@ -192,6 +201,7 @@ def char_aliases(fn, text):
     if text in cached:
         return cached[text]
     cand = set()
+    preds = {}          # locals holding a predicate over the byte -> defining expression
     derived = set()     # pointer locals initialised by a helper call on the byte: `const char* e = entity_for(*data);`
     defs = {}
     for n in fn.all_nodes():
@@ -203,6 +213,12 @@ def char_aliases(fn, text):
                     defs.setdefault(n['id'], []).append((v['d'], cp))
                     if cp:
                         cand.add(v['d'])
+                elif ty is not None and isinstance(v.get('init'), int) and not _is_read(fn, v['init'], text) \
+                        and any(_is_text(fn, fn.nodes[x], text) for x in fn.subtree(v['init'])) and not vars_in(fn, v['init']) - _text_vars(fn, v['init'], text):
+                    # a named predicate over the byte: `const bool at_space = (*s == ' ' || *s == '\\t');`
+                    defs.setdefault(n['id'], []).append((v['d'], ('expr', v['init'])))
+                    cand.add(v['d'])
+                    preds[v['d']] = v['init']
                 elif '*' in v.get('tC', '') and isinstance(v.get('init'), int):
                     c = fn.sn(v['init'])
                     if c is not None and c.get('k') == 'call' and 'q' in c and len([a for a in c.get('args', []) if a is not None]) == 1 \
@@ -223,7 +239,7 @@ def char_aliases(fn, text):
                 defs.setdefault(n['id'], []).append((s_['d'], False))
     defs = {e: [(d, cp) for (d, cp) in ds if d in cand] for e, ds in defs.items()}
     defs = {e: ds for e, ds in defs.items() if ds}
-    cached[text] = (cand, defs, derived)
+    cached[text] = (cand, defs, derived | set(preds), preds)
     return cached[text]
 
 
@@ -307,7 +323,7 @@ def byte_states(fn, text, signed):
     cache = fn.__dict__.setdefault('_c14_bytes', {})
     if (text, signed) in cache:
         return cache[(text, signed)]
-    cand, adefs, derived = char_aliases(fn, text)
+    cand, adefs, derived, preds = char_aliases(fn, text)
     dcalls = {dd: c for ds in adefs.values() for (dd, c) in ds if isinstance(c, dict)}
     mods = set(lvalue_modifications(fn, cursor_lvalue(fn, text)))
     if not text.startswith('*'):
@@ -351,9 +367,11 @@ def byte_states(fn, text, signed):
                     N = N | S
             if hr is not None and not (N & Z):
                 r = ('cond', N if nonnull else BYTES - N)
-        elif len(blk['succs']) == 2 and mentions(blk['cond'], valid - derived):
+        elif len(blk['succs']) == 2 and mentions(blk['cond'], valid - (derived - set(preds))):
             try:
+                ok_preds = valid & set(preds)
                 r = ('cond', char_truth(fn, blk['cond'], char_leaf(text, valid - derived), signed,
+                                        resolve=lambda f_, nn: preds.get(nn.get('d')) if nn.get('d') in ok_preds else None,
                                         callee=make_callee_summary(_FB[0]) if _FB[0] is not None else None))
             except Unsupported:
                 r = None
@@ -373,7 +391,9 @@ def byte_states(fn, text, signed):
             if e in mods:
                 st, valid = BYTES, frozenset()
             for (dd, cp) in adefs.get(e, ()):
-                if isinstance(cp, dict):      # helper call on the byte under the cursor (or on a valid copy of it)
+                if isinstance(cp, tuple):     # named predicate over the byte, computed here
+                    cp = True
+                elif isinstance(cp, dict):    # helper call on the byte under the cursor (or on a valid copy of it)
                     a0 = next(a for a in cp['args'] if a is not None)
                     x0 = fn.sn(a0)
                     cp = _is_read(fn, a0, text) or (x0 is not None and x0.get('k') == 'var' and x0.get('d') in (valid - derived))
@@ -439,7 +459,7 @@ def derived_helper(fn, arg, at, text):
     n = fn.sn(arg)
     if n is None or n.get('k') != 'var':
         return None
-    cand, adefs, derived = char_aliases(fn, text)
+    cand, adefs, derived, _preds = char_aliases(fn, text)
     sub = set(fn.subtree(at))
     first = next((e for e in fn.blocks[fn.positions()[at][0]]['elems'] if e in sub), at)
     valid = byte_states(fn, text, True)[1].get(_elem_of(fn, first), frozenset())
